@@ -50,7 +50,7 @@ def body(f, label, hostile=True, maxlines=8, uniq=None):
     shape = f.weighted(label + ".shape", [6, 1, 1, 1, 2, 1] if hostile else [1, 0, 0, 0, 0, 0])
     if shape == 5:
         # total length on or around a power-of-two boundary (read_size-aligned replies)
-        T = [1024, 4096, 8192][f.int(label + ".T", 3)]
+        T = [1024, 4096, 8192, 70000][f.int(label + ".T", 4)]     # 70000: a literal with more than 64 KiB still to come
         L = T - 40 + f.int(label + ".delta", 45)
         head = b"# " + (uniq or b"b") + b"\r\n"
         tail = [b"\r\n", b"", b"\n"][f.int(label + ".tail", 3)]
